@@ -516,12 +516,12 @@ def r6_truncation_warning(program, rep):
 def check(program, rep):
     program.module(MOD)
     inline = _inline_props(program)
-    r_invariant(program, rep)
-    r1_confinement(program, rep, inline)
-    r2_slices(program, rep, inline)
-    r3_seek(program, rep, inline)
-    r5_guards(program, rep)
-    r6_truncation_warning(program, rep)
+    rep.guard("C13-R0", r_invariant, program, rep)
+    rep.guard("C13-R1", r1_confinement, program, rep, inline)
+    rep.guard("C13-R2", r2_slices, program, rep, inline)
+    rep.guard("C13-R3", r3_seek, program, rep, inline)
+    rep.guard("C13-R5", r5_guards, program, rep)
+    rep.guard("C13-R6", r6_truncation_warning, program, rep)
     rep.assume("distinct local names are not aliases of one mutable object")
     rep.assume("_start_address/_end_address are only written by __init__ "
                "(checked: R0) so start <= end is a class invariant")
